@@ -290,6 +290,7 @@ type expectation struct {
 	mustSucceed bool
 	want        []string // cid hex set, sorted, de-duplicated
 	haveWant    bool
+	mislabel    bool // a CAR block is stored under a CID that does not hash to its data
 	why         string
 }
 
@@ -335,6 +336,7 @@ func (e *containerExec) expect(format string, wire []byte, relaxedTrailing bool)
 				unknown = true
 			} else if !m {
 				bad = fmt.Sprintf("block %d stored under a CID that does not hash to its data", i)
+				ex.mislabel = true
 			}
 			if _, ok := e.ledger[cidHex(harnessCID(b.Data))]; !ok {
 				bad = fmt.Sprintf("block %d is not a sealed token of the ledger", i)
@@ -420,7 +422,7 @@ func (e *containerExec) judge(s *CStep, rd container.Reader, rerr error, ex expe
 	if ex.mustFail {
 		// tolerated only if every returned token still carries signed ledger content
 		// under the hash of the bytes that were delivered (then it is C08's business)
-		if ex.haveWant && strings.Join(keys, ",") == strings.Join(ex.want, ",") && e.allSignedContent(got) {
+		if !ex.mislabel && ex.haveWant && strings.Join(keys, ",") == strings.Join(ex.want, ",") && e.allSignedContent(got) {
 			o.Probe("noncanonical_entry_accepted")
 			return
 		}
